@@ -39,6 +39,12 @@ MODULES = {
     "enum-namespace": "export enum E { A, B = 5, C } export namespace N { export const v = E.C; } N.v",
     "console-order": "console.log('a'); export const x = (console.log('b'), 1); console.log('c'); x",
     "side-effect-import": "import './dep.ts'; export const done = true; done",
+    # first suspension is an await on a promise of the host's (not an order): eval() must hand the run over to step()
+    "hostpromise-first": "export let phase = 'start'; const who = await hostP; phase = 'prod'; export const greeting = 'hello ' + phase + who; greeting",
+    "hostpromise-then-order": "import { order } from 'tsrun:host'; export let phase = 'a'; const w = await hostP; const v = await order('x'); phase = 'b'; export const both = w + v + phase; both",
+    "order-then-hostpromise": "import { order } from 'tsrun:host'; const v = await order('x'); export let phase = 'a'; const w = await hostP; phase = 'b'; export const both = v + w + phase; both",
+    "hostpromise-in-async-fn": "export const tag = 'T'; async function f(){ const w = await hostP; return tag + w; } export const r = await f(); r",
+    "hostpromise-with-import": "import { n, inc } from './dep.ts'; const w = await hostP; inc(); export const r = w + n; r",
     "dynamic-values": "export const now = typeof Date.now(); export const rnd = Math.random() < 1; export const big = 2 ** 40;",
 }
 
@@ -47,7 +53,9 @@ def programs(tier):
     out = []
     mods = [DEP, DEP2]
     for k, s in MODULES.items():
-        out.append({"id": "module|" + k, "src": s, "path": "/p/main.ts", "modules": mods, "roles": "order" not in k and "missing" not in k and "syntax" not in k and "./" not in s})
+        out.append({"id": "module|" + k, "src": s, "path": "/p/main.ts", "modules": mods, "roles": "order" not in k and "missing" not in k and "syntax" not in k and "./" not in s and "hostP" not in s})
+    out.append({"id": "script|hostpromise-first", "src": "var phase = 'start'; const who = await hostP; phase = 'prod'; 'hello ' + phase + who"})
+    out.append({"id": "script|hostpromise-in-fn", "src": "async function f(){ const w = await hostP; return 'f' + w; } await f()"})
     for k, a in c11.A_PROGRAMS.items():
         a = c11.mk(a)
         out.append({"id": "a|" + k, "src": a["src"], "path": a.get("path"), "modules": a.get("modules", [])})
